@@ -56,6 +56,11 @@ def gen_world(seed, tier):
         oo1["optimize_with_safe_paths"] = False
         oo1["optimize_with_flow_safe_paths"] = False
     pool["oo1"] = {"type": "dict", "v": oo1}
+    # options for the minimum searches (their lower-bound helpers build sub-models from the same dict)
+    oo2 = {}
+    for k in rng.sample(["use_subgraph_scanning_lowerbound", "use_min_gen_set_lowerbound", "optimize_with_guessed_weights", "optimize_with_greedy"], rng.randint(1, 3)):
+        oo2[k] = True if k != "optimize_with_greedy" else False
+    pool["oo2"] = {"type": "dict", "v": oo2}
     pool["so0"] = {"type": "dict", "v": {"threads": rng.choice([1, 2, 4])} if rng.random() < 0.5 else {}}
     cons = gen.subpath_constraints(rng, gd, max_c=2)
     pool["cons0"] = {"type": "constraints", "v": cons}
@@ -77,7 +82,9 @@ def gen_world(seed, tier):
         if cname not in models.COVER_CLASSES:
             args["weight_type"] = rng.choice(["int", "float"])
         r = rng.random()
-        if r < 0.55:
+        if cname in ("MinFlowDecomp", "MinFlowDecompCycles", "kFlowDecomp") and rng.random() < 0.5:
+            args["optimization_options"] = "@oo2"
+        elif r < 0.55:
             args["optimization_options"] = "@" + rng.choice(["oo0", "oo0", "oo1"])
         elif r < 0.7:
             args["optimization_options"] = {}
@@ -104,7 +111,8 @@ def gen_world(seed, tier):
     sim = {"latency": "instant", "reply": rng.choice(["canonical", "canonical", "alt"]), "reply_seed": rng.randrange(1 << 30), "faults": []}
     if rng.random() < 0.35:
         sim["faults"] = [{"at": rng.randrange(0, 4), "kind": rng.choice(["interrupt", "time_limit_with_incumbent", "time_limit_no_incumbent", "exception"])}]
-    return {"pool": pool, "ops": ops, "sim": sim}
+    return {"pool": pool, "ops": ops, "sim": sim,
+            "knobs": {"subgraph_lowerbound_size": rng.choice([2, 3]), "subgraph_lowerbound_shift": rng.choice([1, 2])}}
 
 
 def plans(world, info, seed, tier):
@@ -186,8 +194,16 @@ def _close(a, b):
         return a == b
 
 
+def _apply_knobs(knobs):
+    # tuning constants lowered so that the subgraph-scanning code runs on tiny graphs
+    import flowpaths as fp
+    for k, v in (knobs or {}).items():
+        setattr(fp.MinFlowDecomp, k, v)
+
+
 def isolated_eval(payload):
     """Runs in a fresh fork of the pristine reference server."""
+    _apply_knobs(payload.get("knobs"))
     pool_objs = _decode_pool(payload["pool"])
     op = payload["op"]
     w = W.SimWorld(1, {"latency": "instant", "reply": "canonical", "faults": []}, id_offset=5_000_000)
@@ -224,12 +240,13 @@ def execute(spec):
         if op["op"] == "construct":
             try:
                 iso[op["h"]] = refserver.evaluate({"module": "props.c18", "fn": "isolated_eval", "timeout": 100,
-                                                   "payload": {"pool": world["pool"], "op": op}})
+                                                   "payload": {"pool": world["pool"], "op": op, "knobs": world.get("knobs")}})
             except Exception as e:
                 return {"harness_error": "reference server: %r" % (e,)}
             if "harness_error" in iso[op["h"]] or "discard" in iso[op["h"]]:
                 return {"discard": "reference evaluation unusable: %s" % str(iso[op["h"]])[:200]}
     sim = W.SimWorld(H(world["sim"]["reply_seed"], "c18"), world["sim"])
+    _apply_knobs(world.get("knobs"))
     pool_objs = _decode_pool(world["pool"])
     pristine = {k: _snap(v) for k, v in pool_objs.items()}
     handles = {}
